@@ -16,7 +16,7 @@ RULE = ("operation scripts for a private libdbus client connection (1..4 threads
         "send_with_reply with timeouts 3 ms..infinite, set_notify, cancel, block, send_with_reply_and_block, "
         "read_write_dispatch / read_write / dispatch, the application's timer duty dbus_timeout_handle, polling "
         "get_completed, steal_reply) against a scripted Python peer whose per-call reply script permutes reply order, "
-        "duplicates, omits, answers unknown serials, sends errors, delays, batches and closes the socket at step i; "
+        "duplicates, omits, answers unknown serials, sends errors, sends SIGNALs / METHOD_CALLs that carry the call's serial as REPLY_SERIAL (not replies), delays, batches and closes the socket at step i; "
         "each script runs on an ASan+UBSan build and on a TSan build; the completion log (atomic sequence numbers) is "
         "judged by vf/models/pending_client.py. distinct = per-call (how it completed, cancel relation, observers, "
         "timeout class, what the peer sent, connection lost, threads>1, flavor)")
@@ -47,7 +47,9 @@ def make_case(rng):
     for c in range(ncalls):
         is_w = rng.random() < 0.15
         timeout = rng.choice(TIMEOUTS) if is_w else rng.choice(TIMEOUTS + TIMEOUTS + [INFINITE, 25000])
-        shapes = [["ret"], ["ret"], ["ret"], ["err"], ["ret", "ret"], ["ret", "err"], [], ["unk"], ["unk", "ret"], ["err", "err"]]
+        shapes = [["ret"], ["ret"], ["ret"], ["err"], ["ret", "ret"], ["ret", "err"], [], ["unk"], ["unk", "ret"], ["err", "err"],
+                  # messages that are not replies but carry REPLY_SERIAL = this call's serial: before / instead of / after the reply
+                  ["sig"], ["sig", "ret"], ["ret", "sig"], ["call", "ret"], ["call"], ["sig", "err"]]
         acts = []
         for copy, kind in enumerate(rng.choice(shapes)):
             d = "H" if (hold and rng.random() < 0.6) else rng.choice(DELAYS)
@@ -155,6 +157,10 @@ class Script(object):
                 data = vpeer.method_return(pr, m.serial, b"uu", [idx, copy])
             elif kind == "err":
                 data = vpeer.error_reply(pr, m.serial, ERRNAME.encode(), b"suu", [b"scripted error", idx, copy])
+            elif kind == "sig":
+                data = vpeer.spoof(pr, wire.T_SIGNAL, m.serial, b"uu", [idx, copy])
+            elif kind == "call":
+                data = vpeer.spoof(pr, wire.T_CALL, m.serial, b"uu", [idx, copy])
             else:
                 data = vpeer.method_return(pr, (m.serial + 100000) & 0x7FFFFFFF, b"uu", [idx + 1000, copy])
             if delay == "H":
@@ -182,6 +188,9 @@ def peer_log(pr):
             except wire.Invalid:
                 break
             off += n
+            if m.type in (wire.T_SIGNAL, wire.T_CALL) and m.field(wire.F_REPLY_SERIAL) is not None:
+                body = [x for x in m.body if isinstance(x, int)]
+                log.spoofs[m.field(wire.F_REPLY_SERIAL)].append((m.type, body[0] if body else None, body[1] if len(body) > 1 else None))
             if m.type in (wire.T_RETURN, wire.T_ERROR):
                 name = m.field(wire.F_ERROR_NAME, b"")
                 body = [x for x in m.body if isinstance(x, int)]
